@@ -544,6 +544,17 @@ C17(pre, ev, post, aux) ==
            \A b \in DOMAIN post.part : post.part[b].batch =>
                 \A i \in DOMAIN post.part[b].leaves :
                     LET x == post.part[b].leaves[i] IN post.part[x].hist = a1.join[x] \o post.part[b].hist)
+    \cup C("C17.UnpackedPartsCarryTheBatcher",
+           \* a batch's history update reaches every part it contained, also those the batcher unpacks at once: every part
+           \* collected or waiting to leave at batcher b has b as the last device of its own history (followed only by the
+           \* history of the output batch it is in)
+           \A b \in Batchers :
+               LET o  == post.dev[b].out
+                   ob == o # 0 /\ post.part[o].batch /\ cfg.devs[b].bsize > 0
+                   xs == Range(post.dev[b].inprog) \cup (IF o = 0 THEN {} ELSE IF ob THEN Range(post.part[o].leaves) ELSE {o}) IN
+               \A x \in xs : LET h  == post.part[x].hist
+                                 bh == IF ob /\ x \in Range(post.part[o].leaves) THEN post.part[o].hist ELSE <<>> IN
+                             Len(h) > Len(bh) /\ h[Len(h) - Len(bh)] = b)
     \cup C("C17.InProgressBelowSize", \A b \in Batchers : cfg.devs[b].bsize > 0 => Len(post.dev[b].inprog) < cfg.devs[b].bsize)
     \cup C("C17.AcceptsOnlyWhenEmpty",
            \A b \in Batchers : Occ(ev, "recv", b) # <<>> => (pre.dev[b].inp = 0 /\ pre.dev[b].out = 0))
